@@ -92,7 +92,8 @@ Record cacher_ops : Type := {
     [cl_inv] a representation invariant of the concrete structure.
     A cacher never invents or alters a value: Get / Has answer inside the ghost map,
     Put k v makes the ghost map at most [k := v] on top of the old one, every operation
-    may DROP entries of other keys (eviction) but never change them, Remove / Clear forget. *)
+    may DROP entries of other keys (eviction) but never change them, Remove forgets its key,
+    Clear only drops. *)
 Record cacher_laws (C : cacher_ops) : Type := {
   cl_inv : c_st C -> Prop;
   cl_may : c_st C -> bytes -> option bytes;
@@ -113,8 +114,14 @@ Record cacher_laws (C : cacher_ops) : Type := {
                 (k' = k /\ w = v) \/ (k' <> k /\ cl_may s k' = Some w);
   cl_remove : forall s k k' w, cl_inv s ->
                 cl_may (c_remove C s k) k' = Some w -> k' <> k /\ cl_may s k' = Some w;
-  cl_clear  : forall s k, cl_inv s -> cl_may (c_clear C s) k = None
+  cl_clear  : forall s k w, cl_inv s -> cl_may (c_clear C s) k = Some w -> cl_may s k = Some w
 }.
+
+(** Clear forgets everything: NOT part of the laws (no coherence statement needs it, and
+    the FIFO sharded cache does not satisfy it for the empty key, which its Clear skips);
+    it is an explicit premise of the one theorem about cold reads. *)
+Definition clear_forgets (C : cacher_ops) (L : cacher_laws C) : Prop :=
+  forall s k, cl_inv C L s -> cl_may C L (c_clear C s) k = None.
 
 (** ** Operations and their outputs *)
 Inductive uop : Type :=
